@@ -15,7 +15,7 @@ def main():
     ctx = Ctx("C10", "exploration")
     thorough = ctx.tier == "thorough"
     ctx.rule = ("Query shapes = the conjunctive / else-if fragment conditions of EQLCore.tla (logic family exhaustive to depth 2, "
-                "logic6/access sampled), plus predicate / symbolic-function / condition-free queries and rule trees; every "
+                "logic6/access sampled), plus predicate / symbolic-function / condition-free queries, rule trees and match patterns with a variable as keyword value; every "
                 "variable ranges over a 7-element logging one-shot generator, attributes are logging properties. For each shape "
                 "and k = 1..3 a fresh query is built (construction must log nothing), k results are pulled, and the pulled "
                 "prefixes are validated by TLC against Laziness.tla: some loop order of a demand-driven nested loop must justify "
@@ -39,6 +39,20 @@ def main():
     for c in cases[:40]:
         if c["family"] != "f16" and "y" not in repr(c["cond"]):
             cases.append({"cond": c["cond"], "ks": [1, 2], "form": "rule", "family": "rule"})
+    # match patterns whose keyword value is itself a variable over a lazily produced domain of groups
+    for kind in ("ref", "scalar"):
+        cases.append({"cond": ["match", kind], "ks": [1, 2, 3, 4], "family": "match"})
+    # universal conditions: for_all(y, c) over a lazily produced y - decided per tried x up to the first counter-example
+    fa = lambda c: ["forall", "y", c]
+    A = lambda v, f: ["attr", v, f]
+    lit = lambda n: ["lit", n]
+    for c in (["or", ["cmp", "eq", A("x", "a"), lit(1)], fa(["cmp", "lt", A("y", "b"), A("x", "b")])],
+              fa(["cmp", "lt", A("y", "b"), A("x", "b")]),
+              ["and", ["cmp", "eq", A("x", "a"), lit(1)], fa(["cmp", "ge", A("y", "b"), A("x", "b")])],
+              fa(["or", ["cmp", "eq", A("y", "b"), lit(0)], ["cmp", "eq", A("x", "b"), lit(1)]]),
+              ["and", ["cmp", "eq", A("x", "b"), lit(1)], fa(["cmp", "lt", A("y", "a"), A("x", "a")])],
+              ["or", ["cmp", "eq", A("x", "b"), lit(1)], fa(["cmp", "ne", A("y", "a"), A("x", "b")])]):
+        cases.append({"cond": c, "ks": [1, 2, 3], "family": "forall"})
     results = replay("lazy", cases)
     traces, meta = [], {}
     for i, (c, r) in enumerate(zip(cases, results)):
@@ -50,6 +64,8 @@ def main():
             meta[name] = (c, r, o)
             traces.append({"name": name, "n": o["n"], "sat": r["sat"], "k": o["k"], "pulls": o["pulls"], "build": o["build"],
                            "got": o["got"]})
+            if "fa" in r:
+                traces[-1]["fa"] = r["fa"]
     v = validate_traces(ctx, "Laziness", "Laziness_Trace.cfg", traces)
     ctx.traces = len(traces)
     for name, (c, r, o) in meta.items():
